@@ -1613,3 +1613,96 @@ Module ScanCounterexamples.
     rewrite E2 in Ho. discriminate Ho.
   Qed.
 End ScanCounterexamples.
+
+(** ** 13. sanity: the hypotheses are satisfiable on a 39-layer store with interior nodes in
+    two layers, and the theorem describes what the executable model computes *)
+Module ScanExample.
+  Definition p8 : key := [7;7;7;7;7;7;7;7].
+  Definition f8 : key := repeat 255 8.
+  Definition ex_keys : list key :=
+    [[]; [0]; [7]; [7;0]; [7;7;7;7;7;7;7]; p8; p8 ++ [0]; p8 ++ [7]; p8 ++ p8; p8 ++ p8 ++ [1];
+     f8 ++ [3]; repeat 7 300; repeat 7 256]
+    ++ map (fun i => [N.of_nat i; 1]) (seq 1 20)
+    ++ map (fun i => p8 ++ [N.of_nat i; 2]) (seq 1 18).
+  Definition ex_tree : tree :=
+    match StoreExample.puts (empty_tree 1) 2 ex_keys with Some (t, _) => t | None => null_tree end.
+
+  Example ex_shape :
+    (length (t_layers ex_tree), length (abs_tree ex_tree),
+     map (fun x => length (bt_leaves (snd x))) (firstn 3 (t_layers ex_tree))) = (39%nat, 51%nat, [3; 2; 1]%nat).
+  Proof. vm_compute. reflexivity. Qed.
+
+  Example ex_wf : exists ctr, WF_store ctr ex_tree.
+  Proof.
+    destruct (StoreExample.puts_wf ex_keys (empty_tree 1) 2) as (tr' & c' & E & W).
+    - apply empty_tree_wf. lia.
+    - apply Forall_forall. intros k Hk. apply StoreExample.bytesb_sound.
+      assert (forallb (fun k => forallb (fun b => b <? 256) k) ex_keys = true) as A by (vm_compute; reflexivity).
+      rewrite forallb_forall in A. apply A. exact Hk.
+    - exists c'. unfold ex_tree. rewrite E. exact W.
+  Qed.
+
+  Example ex_live : t_null ex_tree = false /\ root_live ex_tree /\ rtl_ok (t_layers ex_tree).
+  Proof.
+    split; [vm_compute; reflexivity|].
+    split; [apply root_liveb_sound; vm_compute; reflexivity|apply rtl_okb_sound; vm_compute; reflexivity].
+  Qed.
+
+  (** the theorem applies to every argument record *)
+  Example ex_applies a : bytes (sa_l a) -> bytes (sa_r a) ->
+    exists o, scan ex_tree a = Some o /\
+      if spec_scan_args_ok a
+      then so_status o = St_OK /\
+           map (fun kv => (fst kv, abs_value (snd kv))) (so_tuples o) = spec_scan_list (abs_tree ex_tree) a
+      else so_status o = St_ERR_BAD_USAGE /\ so_tuples o = [].
+  Proof.
+    intros Hl Hr. destruct ex_wf as (ctr & W). destruct ex_live as (Hn & Hlive & Hrtl).
+    apply (scan_refines ctr); auto.
+  Qed.
+
+  (** and the executable model agrees with the specification on a grid of arguments:
+      endpoints that are stored keys, proper prefixes of stored keys, on 8-byte boundaries,
+      longer than 255 bytes (descent length truncated to 8 bits), all endpoint kinds,
+      max_size 0 / 2, and right-to-left *)
+  Definition keyeq_list (a b : list key) : bool :=
+    Nat.eqb (length a) (length b) && forallb (fun pr => key_eqb (fst pr) (snd pr)) (combine a b).
+  Definition check (tr : tree) (a : scan_args) : bool :=
+    match scan tr a with
+    | None => false
+    | Some o =>
+      if spec_scan_args_ok a then
+        match so_status o with
+        | St_OK => keyeq_list (map fst (so_tuples o)) (map fst (spec_scan_list (abs_tree tr) a))
+        | _ => false
+        end
+      else match so_status o, so_tuples o with St_ERR_BAD_USAGE, [] => true | _, _ => false end
+    end.
+  Definition eps := [EP_EXCL; EP_INCL; EP_INF].
+  Definition endpoints : list key :=
+    [[]; [7;0]; p8; p8 ++ [5]; p8 ++ p8; repeat 7 256; repeat 7 300; repeat 7 520; [10;1]; f8 ++ [3]].
+  Definition ex_args : list scan_args :=
+    flat_map (fun l => flat_map (fun le => flat_map (fun r => flat_map (fun re => flat_map (fun mx =>
+      [{| sa_l := l; sa_le := le; sa_r := r; sa_re := re; sa_max := mx; sa_rtl := false;
+          sa_lnull := false; sa_rnull := false |}]) [0;2]%nat) eps) endpoints) eps) endpoints
+    ++ flat_map (fun l => flat_map (fun le =>
+      [{| sa_l := l; sa_le := le; sa_r := []; sa_re := EP_INF; sa_max := 1; sa_rtl := true;
+          sa_lnull := false; sa_rnull := false |}]) eps) endpoints.
+
+  Example ex_checks : length ex_args = 1830%nat /\ forallb (check ex_tree) ex_args = true.
+  Proof. vm_compute. split; reflexivity. Qed.
+End ScanExample.
+
+(** ** axiom audit *)
+Print Assumptions scan_validate_spec.
+Print Assumptions scan_full_partial.
+Print Assumptions scan_right_partial.
+Print Assumptions scan_left_partial.
+Print Assumptions scan_layers_partial.
+Print Assumptions scan_rtl_partial.
+Print Assumptions scan_refines.
+Print Assumptions scan_null.
+Print Assumptions ScanCounterexamples.scan_refines_needs_root_live.
+Print Assumptions ScanCounterexamples.scan_refines_needs_rtl_ok.
+Print Assumptions ScanCounterexamples.scan_refines_false_from_WF_store_alone.
+Print Assumptions ScanExample.ex_applies.
+Print Assumptions ScanExample.ex_checks.
